@@ -1,8 +1,12 @@
 #!/bin/sh
-# usage: seed_eval_all.sh Cxx   -> evaluates /tmp/wt_Cxx/seed/m1 and m2 sequentially (with tests), keeps them under seeded/
+# usage: seed_eval_all.sh Cxx [wave]  -> evaluates /tmp/wt<wave>_Cxx/seed/m1 and m2 sequentially (with the test-suite comparison)
+#        and keeps them under seeded/Cxx-m1,m2 (wave 1) or seeded/Cxx-m3,m4 (wave 2)
 P=$1
-for m in m1 m2; do
-  if [ -f /tmp/wt_$P/seed/$m/patch.diff ]; then
-    python3 /verif/tools_seed.py eval /tmp/wt_$P/seed/$m $P --tests --keep $P-$m > /tmp/eval_${P}_$m.json 2>&1
+W=${2:-}
+if [ "$W" = "2" ]; then WT=/tmp/wt2_$P; A=m3; B=m4; else WT=/tmp/wt_$P; A=m1; B=m2; fi
+for pair in m1:$A m2:$B; do
+  m=${pair%%:*}; k=${pair##*:}
+  if [ -f $WT/seed/$m/patch.diff ]; then
+    python3 /verif/tools_seed.py eval $WT/seed/$m $P --tests --keep $P-$k > /tmp/eval_${P}_$k.json 2>&1
   fi
 done
